@@ -24,4 +24,6 @@ def run(ctx):
     prost_map.skip_default(rep, 'R05.c', ctx)
     rep.floor('R05.a', 50)
     rep.floor('R05.b', 26)
+    import gen_proto
+    gen_proto.check(rep, ('G05.d',))
     return rep
